@@ -656,11 +656,23 @@ func (vc *FnVC) doConvert(x *ssa.Convert) {
 			name = "gs.fromRunes"
 		}
 		vc.sorts.declareFun(name, "((Array Int "+es+") Int Int) Str")
-		r := vc.setReg(x, sx(name, sSelect(vc.cur(key), sx("sl.base", v.S)), sx("sl.off", v.S), sx("sl.len", v.S)))
+		arrT := sSelect(vc.cur(key), sx("sl.base", v.S))
+		r := vc.setReg(x, sx(name, arrT, sx("sl.off", v.S), sx("sl.len", v.S)))
 		if name == "gs.fromBytes" {
 			vc.assume(sEq(sx("gs.len", r.S), sx("sl.len", v.S)))
 		} else {
 			vc.assume(sAnd(sx("<=", sx("sl.len", v.S), sx("gs.len", r.S)), sx("<=", sx("gs.len", r.S), sx("*", "4", sx("sl.len", v.S)))))
+			// string(rs) of scalar values (no surrogates, in range) has exactly those characters: []rune(string(rs)) == rs
+			vc.declareRuneFns()
+			q := vc.fresh("rq", SInt)
+			_ = q
+			valid := func(t string) string {
+				return sAnd(sx("<=", "0", t), sx("<=", t, "1114111"), sNot(sAnd(sx("<=", "55296", t), sx("<=", t, "57343"))))
+			}
+			elem := func(i string) string { return sSelect(arrT, sx("sl.ix", sx("sl.off", v.S), i)) }
+			allValid := fmt.Sprintf("(forall ((j Int)) (=> (and (<= 0 j) (< j %s)) %s))", sx("sl.len", v.S), valid(elem("j")))
+			same := fmt.Sprintf("(forall ((k Int)) (! (=> (and (<= 0 k) (< k %s)) (= (gs.runeAtIdx %s k) %s)) :pattern ((gs.runeAtIdx %s k))))", sx("sl.len", v.S), r.S, elem("k"), r.S)
+			vc.assume(sImp(allValid, sAnd(sEq(sx("gs.runeCount", r.S), sx("sl.len", v.S)), same)))
 		}
 	case isString(from):
 		st, ok := to.Underlying().(*types.Slice)
@@ -676,12 +688,12 @@ func (vc *FnVC) doConvert(x *ssa.Convert) {
 		arr := vc.fresh("conv", "(Array Int "+es+")")
 		ln := vc.fresh("convlen", SInt)
 		if isRunes {
-			vc.sorts.declareFun("gs.runeCount", "(Str) Int")
-			vc.sorts.declareFun("gs.runeAtIdx", "(Str Int) Int")
+			vc.declareRuneFns()
 			vc.assume(sAnd(sEq(ln, sx("gs.runeCount", v.S)), sx("<=", "0", ln), sx("<=", ln, sx("gs.len", v.S)),
 				sImp(sx(">", sx("gs.len", v.S), "0"), sx(">", ln, "0")),
 				sx("<=", sx("gs.len", v.S), sx("*", "4", ln))))
-			vc.body = append(vc.body, fmt.Sprintf("(assert (forall ((i Int)) (! (and (= (select %s i) (gs.runeAtIdx %s i)) (<= 0 (select %s i)) (<= (select %s i) 1114111)) :pattern ((select %s i)))))", arr, v.S, arr, arr, arr))
+			// decoding yields scalar values only (invalid bytes become U+FFFD): never a surrogate, never out of range
+			vc.body = append(vc.body, fmt.Sprintf("(assert (forall ((i Int)) (! (and (= (select %s i) (gs.runeAtIdx %s i)) (<= 0 (select %s i)) (<= (select %s i) 1114111) (not (and (<= 55296 (select %s i)) (<= (select %s i) 57343)))) :pattern ((select %s i)))))", arr, v.S, arr, arr, arr, arr, arr))
 		} else {
 			vc.assume(sEq(ln, sx("gs.len", v.S)))
 			vc.body = append(vc.body, fmt.Sprintf("(assert (forall ((i Int)) (! (= (select %s i) (gs.at %s i)) :pattern ((select %s i)))))", arr, v.S, arr))
